@@ -53,6 +53,8 @@ type Term struct {
 	Hi   *big.Int
 	id   int
 	hasUF bool
+	ExtOf *Term // this term is byte ExtK (little-endian index) of ExtOf
+	ExtK  int
 }
 
 var termCounter int
@@ -790,4 +792,49 @@ func (t *Term) String() string {
 		return s
 	}
 	return s
+}
+
+// ExtractByte returns byte k (k=0 least significant) of the non-negative integer x.
+func ExtractByte(x *Term, k int) *Term {
+	t := Mod(Div(x, CInt(Pow2(8*k))), CI(256))
+	if t.Op != OpConst && t != x && t.ExtOf == nil {
+		t.ExtOf, t.ExtK = x, k
+	}
+	return t
+}
+
+// Recombine builds the integer whose big-endian bytes are ms (most significant first). When the
+// bytes are exactly the bytes of one integer x (as produced by ExtractByte), x itself is returned.
+func Recombine(ms []*Term) *Term {
+	n := len(ms)
+	i := 0
+	for i < n && ms[i].Op == OpConst && ms[i].Val.Sign() == 0 {
+		i++
+	}
+	rest := ms[i:]
+	m := len(rest)
+	if m == 0 {
+		return CI(0)
+	}
+	if m == 1 {
+		return rest[0]
+	}
+	if x := rest[m-1].ExtOf; x != nil && rest[m-1].ExtK == 0 && x.nonNeg() && x.Hi != nil && x.Hi.Cmp(Pow2(8*m)) < 0 {
+		ok := true
+		for j := 0; j < m; j++ {
+			b := rest[m-1-j]
+			if b.ExtOf != x || b.ExtK != j {
+				ok = false
+				break
+			}
+		}
+		if ok {
+			return x
+		}
+	}
+	var r *Term = CI(0)
+	for j := 0; j < m; j++ {
+		r = Add(r, Mul(rest[j], CInt(Pow2(8*(m-1-j)))))
+	}
+	return r
 }
